@@ -36,7 +36,15 @@ def run(tier, v, wd, replay=None):
     v.add_tlc(r)
     if r.violated:
         raise vlib.Infra("GroupSelect.tla violates %s in the model (reload gen)" % r.violated)
+    # every history of three events followed by the reload (so that "two particular nodes dead, the third alive" does not depend on the sample)
+    bfile = rfile + ".bfs"
+    r = vlib.tlc(wd, "GroupSelect", "GroupSelect_reload_bfs.cfg", emit_to=bfile, timeout=1500)
+    v.add_tlc(r)
+    if r.violated:
+        raise vlib.Infra("GroupSelect.tla violates %s in the model (reload bfs)" % r.violated)
+    with open(rfile, "a") as f:
+        f.write(open(bfile).read())
     run_vectors(v, wd, repo, "./control/", "TestVerifC16Reload", rfile, tags="verif,dae_stub_ebpf", timeout=900, outname="out-r.json")
-    v.assumptions += ["reload hand-over through the production ControlPlane.InheritDialerHealthFrom on two generations of a three-node group",
+    v.assumptions += ["reload hand-over through the production ControlPlane.InheritDialerHealthFrom on two generations of a three-node group and a second group made of two of its nodes (shared node objects)",
                       "two nodes sharing one proxy address, each in one latency-policy group per health domain",
                       "the reload quiesce tail after EndReloadProxyFailureSuppression is skipped by resetting its deadline (time-based, covered under C20 at protocol level)"]
